@@ -63,9 +63,9 @@ READY = True
 MAXDOF = 400
 COND_MAX = 1e10
 TOL_ID = 1e-12       # update relations / derivative identities (observed <= 1e-15)
-TOL_RES = 1e-10      # residual of the solved system relative to |K||u|+|C||v|+|M||a|+|F| (observed <= 1e-14)
+TOL_RES = 1e-10      # residual relative to |K| s_u + |C| s_v + |M| s_a + |F| per row (observed <= 4e-13)
 TOL_SOL = 1e-8       # solution vs solution, x (1 + cond/1e6)
-TOL_E = 1e-9         # energy drift relative to E_0, x (1 + cond/1e4) (observed <= 1e-13)
+TOL_E = 1e-9         # energy drift relative to 1/2|u|'|K||u| + 1/2|v|'|M||v|, x (1 + cond/1e4) (observed <= 1.5e-12)
 TOL_HYPER = 1e-6     # Newton stopping level for the hyperelastic residual
 
 DTS = [0.001, 0.01, 0.05, 0.1, 0.5, 1.0, 4.0, 25.0]
@@ -662,7 +662,7 @@ def check_history(case, rec):
         if sch is None:
             continue
         algo = sch["algo"]
-        sig = dict(algo=algo, kind=p["kind"], step=min(k, 1))
+        sig = dict(algo=algo, kind=p["kind"])
         for _ in range(op["nsub"]):
             sysm = system(simu)
             K, C, M, F, free, B = sysm
@@ -679,8 +679,8 @@ def check_history(case, rec):
             nsteps += 1
             algos_seen.append(algo)
             nt = nt or _nontrivial(algo, old, F, C if p["kind"] != "thermal" else 0 * C, kinds, free)
-    rec.label("problem:" + p["kind"], f"steps:{min(nsteps, 8)}", f"algos_in_history:{len(set(algos_seen))}")
-    for a in set(algos_seen):
+    rec.label("problem:" + p["kind"], f"history_steps:{min(nsteps, 8)}", f"algos_in_history:{len(set(algos_seen))}")
+    for a in sorted(set(algos_seen)):
         rec.label("algo:" + a)
     rec.nontrivial(nt and nsteps >= 2)
 
